@@ -184,7 +184,10 @@ def main(argv=None):
     ev = {
         "property_id": prop, "tier": a.tier, "seed": seed, "level": getattr(mod, "LEVEL", "exploration"),
         "coverage": {
-            "evaluations": m["evaluations"] + n_replayed,
+            # one generated case can contain several executions (e.g. one fault run per write boundary, one parse per
+            # reference of a generated 'world'): count executions when there are more of them than cases
+            "evaluations": max(m["evaluations"], m["units"]) + n_replayed,
+            "cases_generated": m["evaluations"],
             "distinct_nontrivial": len(m["nontrivial"]),
             "rule": getattr(mod, "RULE", ""),
             "samples": samples,
